@@ -20,7 +20,11 @@ FLAGGED = asm(("GLOBAL", ("vp_sink", "hit")), sbu("probe"), "TUPLE1", "REDUCE", 
 BENIGN_UNLISTED = asm(("GLOBAL", ("decimal", "Decimal")), "STOP")
 EXTRA = ("vp_sink.other",)
 
-OPS = ("arm", "activate()", "activate(x)", "remove", "construct", "enter", "leave", "leave_exc", "probe_load", "probe_loads", "probe_load_benign")
+OPS = ("arm", "activate()", "activate(x)", "remove", "construct", "enter", "leave", "leave_exc", "probe_load", "probe_loads", "probe_load_benign",
+       # a context that accepts every verdict: what a load does while it is the innermost protection of pickle.load carries no
+       # expectation (the pinned tree ignores the context's threshold, a tree that honours it executes the probe by design);
+       # what is demanded is that nothing of it is left once it has been exited
+       "enter_permissive")
 SLOTS = ("load", "loads", "cload", "cloads")
 
 
@@ -133,7 +137,7 @@ class Lifecycle(e2.System):
     def enabled(self, ctx, model, op):
         if op in ("leave", "leave_exc"):
             return bool(ctx["cms"])
-        if op == "enter":
+        if op in ("enter", "enter_permissive"):
             return len(ctx["cms"]) < self.max_ctx
         if op == "construct":
             return ctx["pending"] is None
@@ -169,6 +173,15 @@ class Lifecycle(e2.System):
             ctx["cms"].append(cm)
             stack = stack + (b,)
             b = ("CHECKED",) + b[1:]
+        elif op == "enter_permissive":
+            from fickling.analysis import Severity
+            from fickling.context import FicklingContextManager
+
+            cm = FicklingContextManager(max_acceptable_severity=Severity.OVERTLY_MALICIOUS)
+            cm.__enter__()
+            ctx["cms"].append(cm)
+            stack = stack + (b,)
+            b = ("CHECKED*",) + b[1:]
         elif op in ("leave", "leave_exc"):
             cm = ctx["cms"].pop()
             if op == "leave":
@@ -202,13 +215,17 @@ class Lifecycle(e2.System):
         probs = []
         real = get_bindings()
         for sym, slot in zip(b, SLOTS):
+            if sym == "CHECKED*":
+                continue
             got = classify(real[slot])
             want = expected(sym, slot)
             if got != want:
                 probs.append((f"C12|binding|{op}|{slot}", f"after {op}: pickle binding {slot} is {got}, lifecycle model says {want}"))
         if obs and obs[0] == "exit-returned" and obs[1]:
             probs.append((f"C12|exit-swallows|{op}", "__exit__ returned a truthy value (would swallow the exception)"))
-        if obs and obs[0] == "probe" and op == "probe_load_benign":
+        if obs and obs[0] == "probe" and b[0] == "CHECKED*" and op != "probe_loads":
+            pass
+        elif obs and obs[0] == "probe" and op == "probe_load_benign":
             # CHECKED hands the analysed bytes to whatever pickle.loads is at that moment
             eff = b[1] if b[0] == "CHECKED" else b[0]
             want = "UnsafeFileError" if eff.startswith("ML") else "returned"
